@@ -57,6 +57,9 @@ func TestC19b(t *testing.T) {
 	mk := func(i int) *httptest.Server {
 		return httptest.NewServer(http.HandlerFunc(func(w http.ResponseWriter, r *http.Request) {
 			b, _ := io.ReadAll(r.Body)
+			if strings.HasPrefix(r.URL.Path, "/burst") {
+				time.Sleep(15 * time.Millisecond) // a slow receiver: the next messages wait in the transport's queue meanwhile
+			}
 			mu.Lock()
 			seen = append(seen, got{i, r.URL.Path, r.Header.Clone(), string(b)})
 			st := status[i]
@@ -202,6 +205,60 @@ func TestC19b(t *testing.T) {
 			}
 			if success != (wantStatus == 200) {
 				fail("receiver answered %d but the hand-off was reported success=%v (error %v)", wantStatus, success, cqe.Error)
+			}
+		}
+		// ---- a burst: several hand-offs queued in the transport at once (the dispatch cycle hands off a whole batch
+		// before it awaits any of them); each receiver must get ITS message, whatever was encoded after it ----
+		mu.Lock()
+		seen = nil
+		mu.Unlock()
+		k := rapid.IntRange(2, 4).Draw(rt, "burst")
+		for i := 0; i < k; i++ {
+			tid := fmt.Sprintf("burst-task-%d", i)
+			d, _ := json.Marshal(map[string]any{"url": fmt.Sprintf("%s/burst%d", srv[i%2].URL, i), "headers": map[string]string{fmt.Sprintf("X-B%d", i): "1"}})
+			sub := &t_aio.SenderSubmission{Task: &task.Task{Id: tid, Counter: 10 + i, Recv: []byte(fmt.Sprintf(`{"type":"http","data":%s}`, d)), Mesg: &message.Mesg{Type: message.Invoke, Root: "r", Leaf: "l"}},
+				ClaimHref: "claim/" + tid, CompleteHref: "complete/" + tid, HeartbeatHref: "hb/" + tid}
+			sw.Process(&SQE{Id: tid, Submission: &t_aio.Submission{Kind: t_aio.Sender, Tags: map[string]string{"id": tid}, Sender: sub}, Callback: func(*t_aio.Completion, error) {}})
+		}
+		for i := 0; i < k; i++ {
+			select {
+			case <-rec.ch:
+			case <-time.After(8 * time.Second):
+				core.SaveFailure("last", map[string]any{"violation": "burst: completion missing"})
+				rt.Fatalf("VIOLATION C19 only %d of %d hand-offs of a burst were completed within 8 s", i, k)
+			}
+		}
+		mu.Lock()
+		reqs := append([]got{}, seen...)
+		mu.Unlock()
+		for i := 0; i < k; i++ {
+			var mine []got
+			for _, r := range reqs {
+				if r.path == fmt.Sprintf("/burst%d", i) {
+					mine = append(mine, r)
+				}
+			}
+			bad := ""
+			if len(mine) != 1 {
+				bad = fmt.Sprintf("receiver /burst%d got %d requests", i, len(mine))
+			} else {
+				var body struct {
+					Task struct {
+						Id      string `json:"id"`
+						Counter int    `json:"counter"`
+					} `json:"task"`
+					Href map[string]string `json:"href"`
+				}
+				_ = json.Unmarshal([]byte(mine[0].body), &body)
+				tid := fmt.Sprintf("burst-task-%d", i)
+				if body.Task.Id != tid || body.Task.Counter != 10+i || body.Href["claim"] != "claim/"+tid || mine[0].headers.Get(fmt.Sprintf("X-B%d", i)) != "1" {
+					bad = fmt.Sprintf("receiver /burst%d (task %s counter %d) received %s", i, tid, 10+i, truncate(mine[0].body, 300))
+				}
+			}
+			if bad != "" {
+				msg := "of " + fmt.Sprint(k) + " hand-offs queued in the http transport at once, " + bad + ": the body must name that exact task, its counter and its links"
+				core.SaveFailure("last", map[string]any{"violation": msg})
+				rt.Fatalf("VIOLATION C19 %s", msg)
 			}
 		}
 		if nontrivial {
